@@ -52,10 +52,13 @@ package connectconformance
 //@   ensures @recorded has(r.outcomes, testCase) && r.outcomes[testCase].actualFailure == err && r.outcomes[testCase].setupError == setupError
 //@   ensures @kept forall k string :: old(r.outcomes != nil && has(r.outcomes, k)) ==> has(r.outcomes, k)
 
+// sbN[0]: number of feedback lines recorded (ghost)
+//@ ghost sbN: int -> int
 //@ func (*testResults).recordSideband
 //@   requires wfResults(r)
-//@   modifies held, map[string]string
+//@   modifies held, map[string]string, sbN
 //@   ensures !held[r.mu]
+//@   assume_ensures sbN[0] == old(sbN[0]) + 1 //# ghost bookkeeping: one recorded line per call
 
 //@ func (*testResults).failed
 //@   requires wfResults(r) && err != nil
